@@ -903,17 +903,17 @@ class sptensor:
 
             if self.nnz < other.nnz:
                 [subsSelf, valsSelf] = self.find()
-                valsOther = other[subsSelf]
+                valsOther = np.atleast_1d(other[subsSelf])
             else:
                 [subsOther, valsOther] = other.find()
-                valsSelf = self[subsOther]
+                valsSelf = np.atleast_1d(self[subsOther])
             return valsOther.transpose().dot(valsSelf).item()
 
         if isinstance(other, ttb.tensor):
             if self.shape != other.shape:
                 assert False, "Sptensor and tensor must be same shape for innerproduct"
             [subsSelf, valsSelf] = self.find()
-            valsOther = other[subsSelf]
+            valsOther = np.atleast_1d(other[subsSelf])
             return valsOther.transpose().dot(valsSelf).item()
 
         if isinstance(other, (ttb.ktensor, ttb.ttensor)):  # pragma: no cover
